@@ -26,6 +26,23 @@ def run(tier, seed):
                 exp_ = [sum(d[j] if j >= 0 else 0 for j in range(n - size + 1, n + 1)) / size for n in range(len(xs))]
                 return len(got) == len(exp_) and all(abs(float(g) - float(e)) < 1e-9 for g, e in zip(got, exp_)), "amdf(%d, %d)" % (lag, size)
             R.guard("amdf-is-the-moving-average-of-|x[n]-x[n-lag]|", {"lag": lag, "size": size}, am)
+    # a zero value other than 0: earlier samples are taken as that value (all strategies); amdf with size 1 (the
+    # averaging memory does not matter then): |x[n] - x[n-lag]| with x[n-lag] = zero before the start
+    xs0 = [F(v) for v in (3, -1, 4, 1, -5, 9, 2, -6)]
+    for z0 in (F(2), F(-3, 2)):
+        for size in (1, 2, 4):
+            expz = [sum((xs0[j] if j >= 0 else z0) for j in range(n - size + 1, n + 1)) / size for n in range(len(xs0))]
+            for strat in ("deque", "recursive", "fir"):
+                def mvz():
+                    got = list(maverage[strat](size)(list(xs0), zero=z0))
+                    return len(got) == len(expz) and all(abs(float(g) - float(e)) < 1e-9 for g, e in zip(got, expz)), "maverage.%s(%d)(.., zero=%s) differs from the mean of the last %d samples with earlier samples = zero" % (strat, size, z0, size)
+                R.guard("moving-average-strategies-equal-the-mean-of-the-last-size-samples", {"strategy": strat, "size": size, "zero": str(z0)}, mvz)
+        for lag in (1, 2, 3):
+            def amz():
+                got = list(amdf(lag, 1)(list(xs0), zero=z0))
+                exp_ = [abs(xs0[n] - (xs0[n - lag] if n >= lag else z0)) for n in range(len(xs0))]
+                return len(got) == len(exp_) and all(abs(float(g) - float(e)) < 1e-9 for g, e in zip(got, exp_)), "amdf(%d, 1)(.., zero=%s) is not |x[n]-x[n-lag]| with earlier samples = zero" % (lag, z0)
+            R.guard("amdf-is-the-moving-average-of-|x[n]-x[n-lag]|", {"lag": lag, "size": 1, "zero": str(z0)}, amz)
     run_sum = [sum(x[:n + 1], 0) for n in range(N)]
     for strat in ("accumulate", "func", "z"):
         def ac():
